@@ -1706,6 +1706,40 @@ def deku_read_bits(E, st, frame, b, t, c, args):
     return out
 
 
+@model(['read_bytes'], rself='deku::prelude::Reader', pred=lambda c: c.get('rcrate') == 'deku')
+def deku_read_bytes(E, st, frame, b, t, c, args):
+    """Reader::read_bytes(amt, buf): consumes amt * 8 bits (as bytes or, unaligned, as bits), fills buf[..amt]"""
+    usz = E.types.by_name('usize')
+    amt = E.scalar(st, args[1], usz)
+    if amt[0] != 'I':
+        amt = mk_int(0, U63)
+    n = mk_int(amt[1] * 8, min(amt[2] * 8, U63))
+    seq, blv = seq_of(E, st, args[2], pointee_ty(E, frame, t, 2))
+    blen = seq[1] if seq[0] == 'S' else None
+    ok = blen is not None and blen[0] == 'I' and (amt[2] <= blen[1] or (amt[4] is not None and blen[4] is not None and E.entails_le(st, amt[4], blen[4])))
+    oblig(E, frame, b, t, ok, 'read_bytes: buf[..amt] needs amt <= buf.len()')
+    lv, rd = _reader_fields(E, st, args[0], pointee_ty(E, frame, t, 0))
+    dty = E.dest_ty(frame, t)
+    rty = E.types.get(dty)
+    okty = rty['variants'][0]['fields'][0].get('ty')
+    erty = rty['variants'][1]['fields'][0].get('ty')
+    site = E.site(frame, b, 'rby')
+    sid, pos = None, None
+    if rd is not None:
+        sid, pos = _advance(E, st, frame, b, lv, rd, n)
+    E.layout_event(frame, b, t, c, sid, pos, n, 'read_bytes')
+    if blv is not None and seq[0] == 'S':
+        E.write_lv(st, blv, ('S', seq[1], mk_int(0, 255), None))
+    s_err = st.copy()
+    out = []
+    okf, errf = (True, True) if rd is None else _ok_needs_len(E, st, rd[1][0], pos, n)
+    if okf:
+        out.append((st, ('E', None, ((0, (E.expand(('T', okty, site)),)),))))
+    if errf:
+        out.append((s_err, ('E', None, ((1, (('T', erty, None),)),))))
+    return out
+
+
 @model(['into_vec'], pred=lambda c: 'BitVec' in (c.get('rself') or '') or 'BitVec' in (c.get('rname') or ''))
 def bitvec_into_vec(E, st, frame, b, t, c, args):
     v = args[0]
